@@ -15,8 +15,17 @@ META = {
     "note": "Trusted: Lean kernel; axioms propext, Classical.choice, Quot.sound; the hand-written model is tied to the "
             "Rust code by differential testing only; Ratio::cmp (continued-fraction comparison) and BigRational "
             "comparison are modelled by the order of the cross products / of the values; the decoding of a double's "
-            "bit pattern into a rational (Fl.magRat) is validated through the comparisons themselves, not proved "
-            "against IEEE-754. NaN operands are outside the property (model correspondence only). min/max return the "
+            "bit pattern into a rational (Fl.classify / Fl.magRat / Fl.toRat?) is a definition (sign, biased exponent, "
+            "significand with the hidden bit, subnormals) and is not proved against the text of IEEE-754; what IS "
+            "proved about it (Marwood.Proofs.C08.rnd_exact_on_doubles, rnd_monotone, rnd_relative_error, "
+            "Lemmas/NumRnd*.lean) is its consistency with the pure round-to-nearest-even function Fl.rnd of "
+            "Num/F64.lean: the decoded value of every finite double rounds back to a double with that same value, "
+            "rounding then decoding is monotone, and in the normal range the decoded result is within 2^-53 relative of the "
+            "rational that was rounded — statements about the pure implementation; that the hardware's f64 comparison (and "
+            "whatever number.rs does with a mixed exact/inexact pair) agrees with comparing these decoded values is "
+            "validated by the comparison streams on every pair of the palette, not proved. "
+            "The comparison theorems themselves never use Fl.rnd: every representation pair is compared through the "
+            "exact decoded values. NaN operands are outside the property (model correspondence only). min/max return the "
             "winning argument unchanged (no inexact contagion), which the property does not ask for.",
     "technique": "Lean 4 proof (comparison model = order of exact values, all representation pairs, no guard) + "
                  "model-vs-implementation correspondence + exact-comparison oracle on the implementation",
@@ -72,4 +81,6 @@ def run(ctx):
              "triples (sorted, reversed, repeated values in other representations) for the variadic forms; sign "
              "predicates on every member; NaN only against the model; non-trivial = the relation holds or a "
              "min/max value was returned; distinct by request text",
-        trusted_extra=["decoding of binary64 bit patterns Marwood.Fl.classify/magRat (validated by the comparisons, not proved against the standard)"])
+        trusted_extra=["decoding of binary64 bit patterns Marwood.Fl.classify/magRat: a definition, proved consistent with the "
+                       "pure rounding function Fl.rnd (C08: rnd_exact_on_doubles, rnd_monotone, rnd_relative_error) and "
+                       "validated against the hardware by the comparisons; not proved against the text of the standard"])
